@@ -94,6 +94,26 @@ func run(op string, args []string) string {
 				return errKind(err)
 			}
 			return "ok " + hx(rest) + " " + hx(v)
+		case "dbb":
+			// DecodeBytes(in, buf) with a dirty scratch buffer of the given length and capacity: buf is scratch only
+			in := unhx(args[0])
+			bl, _ := strconv.Atoi(args[1])
+			bc, _ := strconv.Atoi(args[2])
+			buf := make([]byte, bl, bc)
+			for i := range buf {
+				buf[i] = 0xA5
+			}
+			rest, v, err := codec.DecodeBytes(append([]byte{}, in...), buf)
+			if err != nil {
+				return errKind(err)
+			}
+			return "ok " + hx(rest) + " " + hx(v)
+		case "ebp":
+			// EncodeBytes(prefix-with-spare-capacity, data) must append: prefix kept, encoding after it
+			pre := unhx(args[0])
+			b := make([]byte, len(pre), len(pre)+64)
+			copy(b, pre)
+			return hx(codec.EncodeBytes(b, unhx(args[1])))
 		case "eu":
 			return hx(codec.EncodeUint(nil, parseU(args[0])))
 		case "eud":
@@ -206,6 +226,12 @@ func propsBytes(a, b, rest []byte) {
 		in := append(append([]byte{}, ea...), rest...)
 		r, v, err := codec.DecodeBytes(in, nil)
 		prop("bytes_roundtrip", err == nil && bytes.Equal(r, rest) && bytes.Equal(v, a), hx(a), hx(rest))
+		// the second argument of DecodeBytes is scratch space only: a dirty buffer of any length / capacity changes nothing
+		for _, bl := range []int{1, len(a), len(a) + 7} {
+			buf := bytes.Repeat([]byte{0x5A}, bl+len(in)+9)[:bl]
+			r2, v2, err2 := codec.DecodeBytes(append([]byte{}, in...), buf)
+			prop("bytes_scratch_buffer", err2 == nil && bytes.Equal(r2, rest) && bytes.Equal(v2, a), hx(a), hx(rest), strconv.Itoa(bl))
+		}
 		prop("bytes_order", sign(bytes.Compare(ea, eb)) == sign(bytes.Compare(a, b)), hx(a), hx(b))
 		prop("bytes_prefix_free", bytes.Equal(a, b) || !bytes.HasPrefix(eb, ea), hx(a), hx(b))
 	}()
@@ -251,6 +277,14 @@ func propsInts(a, b int64, rest []byte) {
 			prop("int_nopanic", false, i64s(a), i64s(b))
 		}
 	}()
+	// every encoder appends to its first argument: enc(prefix, v) = prefix ++ enc(nil, v), prefix untouched
+	pre := make([]byte, 3, 40)
+	copy(pre, []byte{0xDE, 0xAD, 0xBE})
+	okApp := func(got, want []byte) bool { return bytes.HasPrefix(got, []byte{0xDE, 0xAD, 0xBE}) && bytes.Equal(got[3:], want) }
+	prop("append_int", okApp(codec.EncodeInt(pre[:3], a), codec.EncodeInt(nil, a)) && okApp(codec.EncodeIntDesc(pre[:3], a), codec.EncodeIntDesc(nil, a)) &&
+		okApp(codec.EncodeVarint(pre[:3], a), codec.EncodeVarint(nil, a)) && okApp(codec.EncodeComparableVarint(pre[:3], a), codec.EncodeComparableVarint(nil, a)), i64s(a))
+	prop("append_uint", okApp(codec.EncodeUint(pre[:3], uint64(a)), codec.EncodeUint(nil, uint64(a))) && okApp(codec.EncodeUintDesc(pre[:3], uint64(a)), codec.EncodeUintDesc(nil, uint64(a))) &&
+		okApp(codec.EncodeUvarint(pre[:3], uint64(a)), codec.EncodeUvarint(nil, uint64(a))) && okApp(codec.EncodeComparableUvarint(pre[:3], uint64(a)), codec.EncodeComparableUvarint(nil, uint64(a))), i64s(a))
 	type encI struct {
 		name string
 		enc  func([]byte, int64) []byte
@@ -470,6 +504,15 @@ func main() {
 		}
 		emit("db", hx(m))
 		propsDecodeStrict(m)
+		// scratch buffer / append semantics: dirty buffers shorter, as long as and longer than the value, with spare capacity
+		full := append(append([]byte{}, enc...), rest...)
+		for _, bl := range []int{0, 1, len(a), len(a) + 5} {
+			for _, extra := range []int{0, 3, len(full) + 8} {
+				emit("dbb", hx(full), strconv.Itoa(bl), strconv.Itoa(bl+extra))
+			}
+		}
+		emit("dbb", hx(m), strconv.Itoa(len(m)), strconv.Itoa(2*len(m)+1))
+		emit("ebp", hx(rb(1+rng.Intn(4))), hx(a))
 		// composite keys
 		vers := []uint64{0, 1, 2, 1<<63 - 1, 1 << 63, 1<<64 - 2, 1<<64 - 1, rng.Uint64(), rng.Uint64() >> uint(rng.Intn(64))}
 		va, vb := vers[rng.Intn(len(vers))], vers[rng.Intn(len(vers))]
